@@ -61,7 +61,15 @@ func refYAML(c refCase, declOrder int) string {
 			}
 		}
 	}
-	fmt.Fprintf(&b, "watchers:\n  w:\n    watch: [\"*.go\"]\n    events: [\"write\"]\n    task: %s\n", c.Cfg.WTask)
+	// the watcher's task reference is checked whether or not it has anything to watch
+	watch := "    watch: [\"*.go\"]\n"
+	switch declOrder {
+	case 1:
+		watch = ""
+	case 3:
+		watch = "    watch: []\n"
+	}
+	fmt.Fprintf(&b, "watchers:\n  w:\n%s    events: [\"write\"]\n    task: %s\n", watch, c.Cfg.WTask)
 	return b.String()
 }
 
@@ -87,7 +95,7 @@ func CheckC18(env *core.Env, rep *core.Report) *core.Result {
 		for order := 0; order < 2; order++ {
 			d := env.Sub("ref")
 			f := filepath.Join(d, "tasks.yaml")
-			y := refYAML(c, order)
+			y := refYAML(c, order+2*(i%2))
 			_ = ioutil.WriteFile(f, []byte(y), 0o644)
 			list := e.run(d, "", 10*time.Second, "-c", f, "list")
 			val := e.run(d, "", 10*time.Second, "-c", f, "validate", f)
